@@ -220,6 +220,7 @@ def tie(ctx):
             stats["side condition of C14_columns_resolve holds (names of `use` statements on distinct lines)"] += usep
             if not usep:
                 mism.append({"case": "use_names_separated is false on a tree produced by the real tree()", "hyp": h})
+            stats["hypothesis arrows_simple of C14_resolve_arrow holds (callee after -> is a name or access chain)"] += f.get("arrows_simple") == "t"
             stats["hypothesis wf_ast holds"] += wf
             stats["hypothesis no_ns_shadow holds"] += nns
             stats["hypotheses of C09_resolve_refines_modulo_ns hold (wf_ast and no_ns_shadow)"] += wf and nns
